@@ -132,6 +132,15 @@ pub fn util_u32(u: f64) -> u32 {
 }
 
 pub fn gen_curve(rng: &mut Rng) -> (u32, u32, [RatePoint; 5]) {
+    if rng.chance(1, 12) {
+        // a curve at the very top of the representable range (rates of 800 % - 1000 % a year):
+        // with fees on top the borrowing rate leaves the range the curve points can express
+        let zero = rate_u32(8.0 + rng.below(100) as f64 / 100.0);
+        let mid = rate_u32(9.0 + rng.below(50) as f64 / 100.0);
+        let hundred = if rng.chance(1, 2) { u32::MAX } else { rate_u32(9.5 + rng.below(50) as f64 / 100.0) };
+        let pts = vec![RatePoint::new(rng.range(1, u32::MAX as u64 / 2) as u32, mid)];
+        return (zero, hundred, make_points(&pts));
+    }
     let n = rng.below(6) as usize; // 0..5 points
     let zero = rate_u32(rng.below(50) as f64 / 1000.0);
     let mut utils: Vec<u32> = Vec::new();
